@@ -1,2 +1,3 @@
+@property
 def spec(self):
     return ((n, (c, getattr(self.aux_states_, n, None))) for n, c in self.cells_.items())
